@@ -96,6 +96,8 @@ pub struct EpCfg {
     /// the publish-ack callback (non-blocking sends) asks its own sink `is_open()`, `is_ready()` and `credit()`
     /// while it runs - what a pipeline that sends the next message once an acknowledgement frees a slot does
     pub cb_queries: bool,
+    /// ... and publishes a QoS 0 message (topic `cb/q0`) through that sink from inside the callback
+    pub cb_sends: bool,
 }
 
 impl Default for EpCfg {
@@ -141,6 +143,7 @@ impl Default for EpCfg {
             handler_sends: false,
             ctl_sends: false,
             cb_queries: false,
+            cb_sends: false,
         }
     }
 }
